@@ -25,8 +25,13 @@ Definition has_children (f : fs) (p : path) : bool :=
   existsb (fun e => starts p (fst e) && negb (path_eqb p (fst e))) f.
 
 (* the entries directly below directory p, in directory order *)
-Definition children (f : fs) (p : path) : list path :=
-  map fst (filter (fun e => starts p (fst e) && Nat.eqb (length (fst e)) (S (length p))) f).
+Fixpoint child_of (p q : path) : bool :=      (* q = p ++ [a] *)
+  match p, q with
+  | [], [_] => true
+  | a :: p', b :: q' => atom_eqb a b && child_of p' q'
+  | _, _ => false
+  end.
+Definition children (f : fs) (p : path) : list path := map fst (filter (fun e => child_of p (fst e)) f).
 
 Definition xapply (e : xeff) (f : fs) : option fs :=
   match e with
@@ -50,39 +55,50 @@ Fixpoint xrun (ops : list xeff) (f : fs) : fs * bool :=
   | e :: r => match xapply e f with Some f1 => xrun r f1 | None => (f, false) end
   end.
 
+(* copytree collects the error of a failed copy and goes on with the remaining files before raising *)
+Fixpoint run_copies (ops : list xeff) (f : fs) : fs :=
+  match ops with
+  | XCopy s d :: r => match xapply (XCopy s d) f with Some f1 => run_copies r f1 | None => run_copies r f end
+  | _ => f
+  end.
+
 (* interrupted at step k: a copy is cut after n bytes (n = 0: the target was not even created); written
-   text is buffered until Close exactly as in Model.bcrash *)
-Fixpoint xbcrash (ops : list xeff) (pd : pending) (k j n : nat) (f : fs) : fs :=
+   text is buffered until Close exactly as in Model.bcrash.  [fault] = the step raised OSError instead of the
+   process dying: the same disk, except that copytree still copies the files that follow a failed copy. *)
+Fixpoint xbcrash (fault : bool) (ops : list xeff) (pd : pending) (k j n : nat) (f : fs) : fs :=
   match ops with
   | [] => f
   | e :: r =>
     match k with
     | 0 => match e with
            | XB b => cut_pending (buffer b pd) j n f
-           | XCopy s d => match content_at f s with
-                          | Some c => match n with
-                                      | 0 => f
-                                      | S _ => if parent_ok f d then set_node f d (File (ctake n c)) else f
-                                      end
-                          | None => f
-                          end
+           | XCopy s d =>
+             let f1 := match content_at f s with
+                       | Some c => match n with
+                                   | 0 => f
+                                   | S _ => if parent_ok f d then set_node f d (File (ctake n c)) else f
+                                   end
+                       | None => f
+                       end in
+             if fault then run_copies r f1 else f1
            | _ => cut_pending pd j n f
            end
     | S k' =>
       match e with
-      | XB (Write _ _ as b) => match pd with Some _ => xbcrash r (buffer b pd) k' j n f | None => f end
+      | XB (Write _ _ as b) => match pd with Some _ => xbcrash fault r (buffer b pd) k' j n f | None => f end
       | XB (Close _) => match pd with
-                        | Some (q, ds) => xbcrash r None k' j n (flush_all q ds f)
-                        | None => xbcrash r None k' j n f
+                        | Some (q, ds) => xbcrash fault r None k' j n (flush_all q ds f)
+                        | None => xbcrash fault r None k' j n f
                         end
       | XB (OpenTrunc p as b) | XB (OpenAppend p as b) =>
-        match apply b f with Some f1 => xbcrash r (Some (p, [])) k' j n f1 | None => f end
-      | _ => match xapply e f with Some f1 => xbcrash r pd k' j n f1 | None => f end
+        match apply b f with Some f1 => xbcrash fault r (Some (p, [])) k' j n f1 | None => f end
+      | _ => match xapply e f with Some f1 => xbcrash fault r pd k' j n f1 | None => f end
       end
     end
   end.
 
-Definition xcrash (ops : list xeff) (k j n : nat) (f : fs) : fs := xbcrash ops None k j n f.
+Definition xinterrupt (fault : bool) (ops : list xeff) (k j n : nat) (f : fs) : fs := xbcrash fault ops None k j n f.
+Definition xcrash (ops : list xeff) (k j n : nat) (f : fs) : fs := xinterrupt false ops k j n f.
 
 Section XLayout.
 Variable O : oracle.
@@ -137,28 +153,28 @@ Section XProofs.
 Variable O : oracle.
 
 Lemma xlayout_no_loss :
-  forall (s0 r0 : string) (d : option string) (t : bool) (k j n : nat) (f0 f1 f2 : fs),
+  forall (s0 r0 : string) (d : option string) (t fault : bool) (k j n : nat) (f0 f1 f2 : fs),
     f0 = layout_budget s0 r0 d None t None false ->
-    f1 = xcrash (xupdate_ops O f0) k j n f0 ->
+    f1 = xinterrupt fault (xupdate_ops O f0) k j n f0 ->
     f2 = xupdate_rerun O f1 ->
     content_kept f0 f1 f2.
 Proof.
-  intros s0 r0 d t k j n f0 f1 f2 E0 E1 E2. unfold content_kept.
-  destruct d as [d0|]; destruct t; subst f0;
+  intros s0 r0 d t fault k j n f0 f1 f2 E0 E1 E2. unfold content_kept.
+  destruct d as [d0|]; destruct t; destruct fault; subst f0;
   revert E1; split_k17 k; norminx E1; subst f1; norminx E2; subst f2; split; solve_no_loss.
 Qed.
 
 Lemma xlayout_rules_safe :
-  forall (s0 r0 : string) (d : option string) (t : bool) (k j n : nat) (f0 f1 f2 : fs),
+  forall (s0 r0 : string) (d : option string) (t fault : bool) (k j n : nat) (f0 f1 f2 : fs),
     mf O s0 = MfKey [Aconfig; Arules] ->
     xlayout_guard d k = true ->
     f0 = layout_budget s0 r0 d None t None false ->
-    f1 = xcrash (xupdate_ops O f0) k j n f0 ->
+    f1 = xinterrupt fault (xupdate_ops O f0) k j n f0 ->
     f2 = xupdate_rerun O f1 ->
     layout_rules_safe O f0 f1 f2 r0.
 Proof.
-  intros s0 r0 d t k j n f0 f1 f2 Hmf Hg E0 E1 E2.
-  destruct d as [d0|]; cbn in Hg; destruct t; subst f0;
+  intros s0 r0 d t fault k j n f0 f1 f2 Hmf Hg E0 E1 E2.
+  destruct d as [d0|]; cbn in Hg; destruct t; destruct fault; subst f0;
   revert Hg E1; split_k17 k; try discriminate Hg;
   norminx E1; subst f1; norminx E2; subst f2; solve_rules.
 Qed.
